@@ -150,7 +150,9 @@ class MutSer(xmlw._Ser):
             self.out.append(f'{pad}<!-- c{self.n_el}: id="x" & <not a tag> -->{nl}')
         if self.s['comments'] and self.n_el % 8 == 5 and level >= 1:
             # a processing instruction may hold anything but '?>' - tag look-alikes too
-            self.out.append(f'{pad}<?wnv p{self.n_el} <Lexicon id="ghost" version="9"> ?>{nl}')
+            # ... the opener of a comment or of a CDATA section as well (every other one)
+            opener = ('<!-- ', '<![CDATA[ ')[self.n_el // 16 % 2] if self.n_el % 16 >= 8 else ''
+            self.out.append(f'{pad}<?wnv p{self.n_el} {opener}<Lexicon id="ghost" version="9"> ?>{nl}')
         if self.s['blank_lines'] and self.n_el % 5 == 2 and nl:
             self.out.append('\n')
         a = self.attrs_of(el, pad)
